@@ -231,6 +231,51 @@ CHECKS = {
             'DESIGN.md section 2 C13'),
 }
 
+# (technique suffix, level text suffix) added in session 3 - see DESIGN.md section 6.1
+EXTRA = {
+    'C01': ('; one case in three uses the consumer\'s default deferred dispatcher (drained through an end marker)',
+            ' Programs include several states per state transaction, stale context entities, context descriptors that are '
+            'deleted and re-created with their states; deleted_states_by_handle is one of the notifications judged.'),
+    'C02': ('', ' Programs include stale context entities written after their descriptor changed, context descriptors '
+                'deleted / re-created with 2-3 context states, several states per state transaction.'),
+    'C03': ('; further generated steps: entity.update() followed by nested writes, writes to getter results after their '
+            'transaction committed, rejected calls caught inside the transaction body',
+            ' A handed-out object is also written to after entity.update() and after the commit of the transaction that '
+            'handed it out; a rejected call that the application catches inside the body must contribute nothing.'),
+    'C05': ('; separate generated part for mex Metadata (hand-written reader) validated as wsx:Metadata',
+            ' mex Metadata values with generated ThisModel / ThisDevice / Relationship / wsdl sections are written, '
+            'validated, read back and compared, including the shortcut members.'),
+    'C06': ('; reports of in-flight commits can be lost during the initial load; replayed buffered reports are judged '
+            'against the Get responses of the same load',
+            ' During the initial load some reports may be lost (then: nothing older than the Get responses, reload '
+            'restores the mirror) and every state announced while buffered reports are replayed is compared with what '
+            'GetMdib / GetContextStates delivered.'),
+    'C07': ('; reads of mdib_version_group are switch points as well, table locks always instrumented',
+            ' The version-group read is a switch point, so a reader that keeps writers out with the wrong lock or none is '
+            'interleaved between collecting and labelling its answer.'),
+    'C09': ('', ' The report sequence of every transaction id seen in reports is judged, also ids no response carried '
+                '(refused requests).'),
+    'C10': ('; plus concurrent context changes (2-3 tasks) under the cooperative scheduler judged on per-MdibVersion '
+            'snapshots',
+            ' Part sched: SetContextState invocations by different consumers and set_location run concurrently, '
+            'interleaved at lock granularity; the same invariants are judged on a snapshot per MdibVersion.'),
+    'C14': ('', ' Histories can install application callbacks (well-behaved or raising) for hello / bye / probe / probe '
+                'matches / resolve match.'),
+    'C15': ('; hypothesis generated sets of 2-4 messages in flight on the stepping clock; enumerated loop-back with '
+            '0..450 foreign ids seen before',
+            ' Several messages in flight: each keeps its own envelope in the real send loop; own messages are ignored when '
+            'looped back also after the 200-id memory has been filled and a new foreign message arrived in between.'),
+    'C16': ('', ' The published scope is also judged after a location history (earlier locations, final one set with '
+                'set_location or in place with update_from_sdc_location).'),
+    'C18': ('; exhaustive differential of every scalar-valued property against its converter',
+            ' Each of the 91 attribute / element-text properties with a scalar or list-of-scalars converter must read the '
+            'fixed inside / outside lexical forms exactly as its converter does.'),
+    'C19': ('; the transport can re-spell peer input (wsdl location on another server, wsa:To with http) and real socket '
+            'connects are intercepted',
+            ' A real socket connect in a world with a TLS party is a connection outside the soap clients and their TLS '
+            'context; addresses the provider derives from peer input must still be https.'),
+}
+
 NOT_YET = {}
 
 
@@ -242,6 +287,8 @@ def main():
         pid = p['id']
         if pid in CHECKS:
             tech, text, note, ref = CHECKS[pid]
+            tech += EXTRA.get(pid, ('', ''))[0]
+            text += EXTRA.get(pid, ('', ''))[1]
             checks.append({
                 'property_id': pid,
                 'quick_cmd': f'./check {pid} quick',
